@@ -537,7 +537,7 @@ def random_case(rng, quick):
 def gen(ctx):
     quick = ctx.tier == 'quick'
     rng = ctx.rng('gen')
-    n = 250 if quick else 4000
+    n = 250 if quick else 20000
     for _ in range(n):
         yield random_case(rng, quick)
 
